@@ -1005,5 +1005,9 @@ func main() {
 		supervisor()
 	case "worker":
 		worker()
+	case "extract":
+		extractMain(os.Args[2:])
+	case "skeleton":
+		skeletonMain(os.Args[2:])
 	}
 }
